@@ -6,6 +6,29 @@ Local Open Scope Z_scope.
 
 (* ------------------------------------------------------------------ coap_print_wellknown *)
 
+(* for strings stored by the library ([0] behind them) and for exact-size strings of the
+   application ([] behind them) alike: the repaired code never looks behind a path or value *)
+Theorem lf_wellknown_window_term term rs filter off buflen :
+  0 <= off -> 0 <= buflen <= lf_status_max ->
+  lf_print_wellknown_g true term rs filter off buflen =
+  LfVal {| lf_rstatus := LfDone (len (lf_window off buflen (lf_listing (lf_selected filter rs))))
+                                (lf_trunc_spec off buflen (len (lf_listing (lf_selected filter rs))));
+           lf_rbytes := lf_window off buflen (lf_listing (lf_selected filter rs));
+           lf_rtotal := len (lf_listing (lf_selected filter rs)) |}.
+Proof.
+  intros Ho Hb. unfold lf_print_wellknown_g.
+  destruct filter as [q|].
+  - destruct (lf_split_filter_ok q) as (f & Hf & Hfok). rewrite Hf.
+    destruct (lf_print_wellknown_window_gen true term rs (Some f) (lf_filter_spec q) off buflen Ho Hb)
+      as (w & Hw & Hret).
+    { intros r Hr. apply lf_select_ok. exact Hfok. }
+    rewrite Hw. f_equal. exact Hret.
+  - destruct (lf_print_wellknown_window_gen true term rs None (fun _ => true) off buflen Ho Hb)
+      as (w & Hw & Hret).
+    { intros r Hr. reflexivity. }
+    rewrite Hw. f_equal. exact Hret.
+Qed.
+
 Theorem lf_wellknown_window rs filter off buflen :
   0 <= off -> 0 <= buflen <= lf_status_max ->
   lf_print_wellknown rs filter off buflen =
@@ -13,19 +36,7 @@ Theorem lf_wellknown_window rs filter off buflen :
                                 (lf_trunc_spec off buflen (len (lf_listing (lf_selected filter rs))));
            lf_rbytes := lf_window off buflen (lf_listing (lf_selected filter rs));
            lf_rtotal := len (lf_listing (lf_selected filter rs)) |}.
-Proof.
-  intros Ho Hb. unfold lf_print_wellknown, lf_print_wellknown_g.
-  destruct filter as [q|].
-  - destruct (lf_split_filter_ok q) as (f & Hf & Hfok). rewrite Hf.
-    destruct (lf_print_wellknown_window_gen true rs (Some f) (lf_filter_spec q) off buflen Ho Hb)
-      as (w & Hw & Hret).
-    { intros r Hr. apply lf_select_ok. exact Hfok. }
-    rewrite Hw. f_equal. exact Hret.
-  - destruct (lf_print_wellknown_window_gen true rs None (fun _ => true) off buflen Ho Hb)
-      as (w & Hw & Hret).
-    { intros r Hr. reflexivity. }
-    rewrite Hw. f_equal. exact Hret.
-Qed.
+Proof. apply lf_wellknown_window_term. Qed.
 
 (* the byte count in the status word is the length of the window; with the closed forms *)
 Lemma lf_window_len_closed off buflen l :
@@ -183,8 +194,8 @@ Proof.
   - apply lf_window_len_closed; lia.
 Qed.
 
-Lemma lf_filter_spec_ok q r :
-  exists f, lf_split_filter true q = LfVal f /\ lf_select true f r = LfVal (lf_filter_spec q r).
+Lemma lf_filter_spec_ok term q r :
+  exists f, lf_split_filter true q = LfVal f /\ lf_select true term f r = LfVal (lf_filter_spec q r).
 Proof.
   destruct (lf_split_filter_ok q) as (f & Hf & Hok).
   exists f. split; [exact Hf|]. apply lf_select_ok; assumption.
